@@ -311,6 +311,18 @@ impl<'c> E1<'c> {
                             self.drain(&info);
                             return;
                         }
+                        // recorded finding (C04): an untracked read performed by a member of a fixpoint
+                        // cycle is lost when the head's dependencies are flattened
+                        let cyc_untracked = cr_opt.as_ref().is_some_and(|cr| {
+                            let reach = cr.reachable(n);
+                            reach.iter().any(|x| cr.untracked[*x] && prog.in_block(*x) && reach.iter().any(|h| cr.on_cycle.contains(h)))
+                        });
+                        if cyc_untracked && self.out.revisions > 0 {
+                            self.out.viol("cycle_untracked_read_lost", step, format!("node {n}: expected {e:?} got {g:?}"));
+                            info.ok = true;
+                            self.drain(&info);
+                            return;
+                        }
                         let fb = prog.nodes.iter().any(|x| x.kind == Kind::Fb);
                         // the recorded finding needs a mutable step (new revision or cancellation)
                         // before the request; histories without one are judged exactly. Wrong body
